@@ -2,6 +2,7 @@
 # sort_group and `pff dup` (replication_repair.main / synchronize_files) on real directories, and the property
 # predicate (union of paths; each path processed once over exactly its holders; majority-intact files restored)
 # evaluated on the implementation's own report, output tree and exit status.
+import common
 import csv, io, itertools, json, os, shutil, sys, tempfile
 from common import hx, hxl, unhx
 
@@ -92,7 +93,7 @@ def run_impl(replicas, dirs, via):
             sys.stdout = io.StringIO()
             try:
                 if via == 'main':
-                    rc = rep.main(['-i'] + ins + ['-o', out, '--report', 'report.csv', '-f', '--silent'])
+                    rc = rep.main(['-i'] + ins + ['-o', out, '--report', 'report.csv', '-f', '--silent'] + (['-v'] if common.every_fourth() else []))
                 else:
                     rc = rep.synchronize_files(ins, out, report_file='report.csv', ptee=io.StringIO())
             except BaseException as e:  # an escaping exception is an observable
